@@ -180,7 +180,7 @@ def coq_prop(prop_id, extra_files=()):
     os.makedirs(tmpd, exist_ok=True)
     out_vo = os.path.join(tmpd, '%s.vo' % prop_id)
     t0 = time.time()
-    p = subprocess.run(['timeout', '900', 'coqc', '-Q', '.', 'SV', '-o', out_vo, 'prop/%s.v' % prop_id],
+    p = subprocess.run(['flock', '-s', os.path.join(VERIF, '.build.lock'), 'timeout', '900', 'coqc', '-Q', '.', 'SV', '-o', out_vo, 'prop/%s.v' % prop_id],
                        cwd=COQ, stdout=subprocess.PIPE, stderr=subprocess.STDOUT)
     out = p.stdout.decode()
     import shutil
@@ -214,7 +214,7 @@ def xcheck(prop_id, model, limit=200):
                 '  match cs with [] => [] | (n, i, o) :: cs\' =>\n'
                 '    if val_eqb (sv_run_entry n i) o then bad (k + 1) cs\' else k :: bad (k + 1) cs\' end.\n')
         f.write('Eval vm_compute in (bad 0 cases).\n')
-    p = subprocess.run(['bash', '-c', 'ulimit -s unlimited 2>/dev/null; timeout 600 coqc -Q . SV xcheck/%s.v' % name],
+    p = subprocess.run(['flock', '-s', os.path.join(VERIF, '.build.lock'), 'bash', '-c', 'ulimit -s unlimited 2>/dev/null; timeout 600 coqc -Q . SV xcheck/%s.v' % name],
                        cwd=COQ, stdout=subprocess.PIPE, stderr=subprocess.STDOUT)
     out = p.stdout.decode()
     for f in glob.glob(os.path.join(d, name + '.*')) + glob.glob(os.path.join(d, '.' + name + '.*')):
